@@ -26,6 +26,8 @@ from ..vloop import Horizon, VLoop
 from ._common import CtlProperty, describe_unit, enter_trace
 from .c17 import PositionalLocal
 
+from ._common import process_comms_text_key as _text_key  # noqa: E402
+
 ID = 'C16'
 MESSAGES = (('rpc', 'pause', 'm'), ('rpc', 'play'), ('rpc', 'kill', 't1'), ('rpc', 'status'),
             ('bc', 'pause', 'bm'), ('bc', 'play'), ('bc', 'kill', 'bt'))
@@ -180,8 +182,8 @@ class CommWorld(ctl.World):
                         'kill': lambda: controller.kill_process('p0', text), 'status': lambda: controller.get_status('p0')}[intent]()
                 rec['reply'] = self.loop.create_task(coro)
             elif kind == 'rpc':
-                msg = {'pause': process_comms.MessageBuilder.pause, 'play': process_comms.MessageBuilder.play,
-                       'kill': process_comms.MessageBuilder.kill, 'status': process_comms.MessageBuilder.status}[intent](text)
+                builder = getattr(process_comms.MessageBuilder, intent)
+                msg = builder(text) if intent in ('pause', 'kill') else builder()  # (play and status carry no text)
                 rec['reply'] = futures.unwrap_kiwi_future(self.comm.rpc_send('p0', msg))
             else:
                 controller = process_comms.RemoteProcessThreadController(self.comm)
@@ -208,7 +210,7 @@ def observations(w: CommWorld) -> Dict[str, Any]:
         outcome: Any = ('FINISHED', repr(proc.result()), proc.successful())
     elif state == PS.KILLED:
         msg = proc.killed_msg()
-        outcome = ('KILLED', msg.get('message') if isinstance(msg, dict) else msg)
+        outcome = ('KILLED', msg.get(_text_key()) if isinstance(msg, dict) else msg)
     elif state == PS.EXCEPTED:
         outcome = ('EXCEPTED', type(proc.exception()).__name__)
     else:
@@ -266,10 +268,13 @@ class Oracle:
             if op[0] == 'bc' and rec['live_when_settled'] is False:
                 optional.append(len(want_calls) - 1)
         got_calls = [(h[0], h[1]) for h in w.handler_log if not h[3]]
-        if has_async:
-            # tasks of the coroutine controller and plain sends interleave: compare as multisets
+        kinds_sent = {r['op'][0] for r in w.sent if r['raised'] is None and r['op'][1] != 'status'}
+        mixed = len(kinds_sent & {'rpc', 'bc'}) == 2
+        if has_async or mixed:
+            # tasks of the coroutine controller and plain sends interleave, and RPCs and broadcasts travel on different
+            # queues (in which order a broadcast and an RPC sent back to back are handled is not laid down): multisets
             want_calls, got_calls = sorted(want_calls, key=repr), sorted(got_calls, key=repr)
-        if optional and not has_async and got_calls != want_calls:
+        if optional and not (has_async or mixed) and got_calls != want_calls:
             mandatory = [c for i, c in enumerate(want_calls) if i not in optional]
             if not (is_subsequence(mandatory, got_calls) and is_subsequence(got_calls, want_calls)):
                 w.violate('a:handler-calls-differ', dict(feats, n_want=len(want_calls), n_got=len(got_calls)),
@@ -277,7 +282,7 @@ class Oracle:
         elif got_calls != want_calls:
             w.violate('a:handler-calls-differ', dict(feats, n_want=len(want_calls), n_got=len(got_calls)),
                       {'want': want_calls, 'got': got_calls})
-        elif not has_async:
+        elif not (has_async or mixed):
             # the reply ends with what the handler's return value ends with
             remote_handlers = [h for h in w.handler_log if not h[3]]
             k = 0
@@ -292,21 +297,27 @@ class Oracle:
                 if got != want:
                     w.violate('a:reply-differs-from-handler-result', dict(feats, intent=rec['op'][1], want=str(want), got=str(got)),
                               {'reply': got, 'handler_returned': want})
-        if has_async:
+        if has_async or mixed:
             # match replies and handler results per intent, in order
             for intent in ('pause', 'play', 'kill'):
                 results = [final_of(h[2]) for h in w.handler_log if not h[3] and h[0] == intent]
                 replies = [final_of(r['reply']) for r in w.sent if r['op'][1] == intent and r['raised'] is None
                            and r['op'][0] in ('rpc', 'actl')]
-                if sorted(map(repr, results)) != sorted(map(repr, replies)):
+                import collections
+                missing = collections.Counter(map(repr, replies)) - collections.Counter(map(repr, results))
+                surplus = collections.Counter(map(repr, results)) - collections.Counter(map(repr, replies))
+                n_bc = sum(1 for r in w.sent if r['op'][0] == 'bc' and r['op'][1] == intent and r['raised'] is None)
+                # (every reply is what one handler call returned; handler calls beyond that belong to broadcasts)
+                if missing or sum(surplus.values()) > n_bc:
                     w.violate('a:reply-differs-from-handler-result', dict(feats, intent=intent, controller='async'),
                               {'replies': replies, 'handler_returned': results})
         for rec in w.sent:
             if rec['op'][1] == 'status' and rec['raised'] is None and rec['live'] and not has_async:
                 got = final_of(rec['reply'])
                 # the reply is exactly what the process reported about itself when the request was handled
+                # (the process may report about itself on other occasions too: the reply is one of its reports)
                 handled = w.status_log[rec['n_status']] if rec['n_status'] < len(w.status_log) else None
-                if got != ('value', handled):
+                if got != ('value', handled) and not any(got == ('value', report) for report in w.status_log):
                     w.violate('a:status-reply', feats, {'got': got, 'handler_reported': handled})
             if rec['live'] and rec['raised'] is not None and not rec.get('undelivered'):
                 w.violate('a:send-to-live-process-raised', dict(feats, exc=type(rec['raised']).__name__), repr(rec['raised']))
